@@ -27,8 +27,13 @@ PROP = dict(
          "three for the others; random scripts draw the reply class); ASCII streams with a line of 4094/4095/4096/4097/9000 bytes and binary "
          "streams with a frame of 4092/4096/9000 bytes (reader-buffer boundaries; 64 KiB lines are sent by C08/C10: the LTS simulation is fed "
          "byte by byte) held, dropped after the stream, dropped right after and one byte before the end of the long frame; "
+         "successive connections of ONE call negotiating different modes (script key modes=, one letter per connection: ASCII then binary, "
+         "binary then ASCII, three and four sessions, every ASCII handshake - silence, RDY, map, text, ErrorMsg + close - followed by a "
+         "binary session; each session streams in its own encoding, is dropped before any byte / at a boundary / inside a frame / after "
+         "the stream, the next one must deliver from its first frame; cancellation at the second connect, in the second probe, in the "
+         "retry sleep; the binary argument of every connect callback is compared with the mode negotiated on that connection); "
          "plus n "
-         "random scripts (loss kind, pause, traffic drawn at random). EQ = the observed trace is accepted by the LTS (set-of-states "
+         "random scripts (loss kind, pause, traffic, a mode per connection drawn at random). EQ = the observed trace is accepted by the LTS (set-of-states "
          "simulation; the panel's bytes fed one by one, the model clock following the trace timestamps; the goroutine census taken "
          "just before the cancellation is bounded by the goroutines the model has alive, and the panel sees connection k closing no "
          "later than 300 ms after the k-th disconnect callback - the model closes before it calls back; both are comparisons with "
